@@ -46,6 +46,13 @@ def gen_inputs(ctx):
                         continue
                     out.append(("Addr", {"kind": kind, "net": net, "K": K, "via": "pubkey", "compressed": comp},
                                 ("pubkey", kind, net, comp, kc)))
+    # request sequences on one key object (both orders of compressed / uncompressed, both kinds)
+    for pt, kc in keys[:6 if q else 40]:
+        K = B(R.sec(pt, True))
+        for net in ("main", "test"):
+            steps = [{"compressed": c, "kind": k} for c, k in ((True, "p2pkh"), (False, "p2pkh"), (True, "p2wpkh"), (False, "p2pkh"), (True, "p2pkh"))]
+            out.append(("AddrSeq", {"K": K, "net": net, "steps": steps}, ("addrseq", "compressed-first", net)))
+            out.append(("AddrSeq", {"K": K, "net": net, "steps": list(reversed(steps))}, ("addrseq", "uncompressed-first", net)))
     # script templates
     for _ in range(4 if q else 40):
         h20 = bytes(rng.randrange(256) for _ in range(20))
@@ -72,6 +79,8 @@ def describe(ev):
     if ev["act"] == "Addr":
         return "%s %s address of %s.. via %s%s" % (i["net"], i["kind"], bytes(i["K"]).hex()[:14], i["via"],
                                                     "" if i["compressed"] else " (uncompressed)")
+    if ev["act"] == "AddrSeq":
+        return "%s addresses %s from ONE PublicKey object" % (i["net"], [(s["kind"], "c" if s["compressed"] else "u") for s in i["steps"]])
     if ev["act"] == "ScriptTpl":
         return "%s_script(h).raw_serialize()" % i["tpl"]
     return "hash160/ripemd160 of %d bytes" % len(i)
